@@ -1382,7 +1382,7 @@ func TestProp(t *testing.T) {
 	run := rt.Begin(t, "C15")
 	defer run.Finish()
 
-	run.Check("rollfn", 800000, 20000000,
+	run.Check("rollfn", 800000, 12000000,
 		"direct calls of the exported roll functions with a seeded PCG source: Roll(sides), RollCommon(times 1..300, sides 1..2e9, optional min<=max clamps, keep-low/keep-high/drop-low/drop-high n>=1), RollCoC(bonus|penalty, 0..6 extra dice), RollFate; mode -1 and +1 must leave the source untouched, equal kept x clamp(1) / kept x clamp(sides) for RollCommon (1 / sides for Roll), and bracket 1..200 mode-0 rolls; non-trivial = RollCommon with a keep/drop or clamp, or CoC/Fate; distinct by parameters",
 		func(t *rapid.T, s *rt.Section) {
 			c := drawFnCase(t)
@@ -1414,7 +1414,7 @@ func TestProp(t *testing.T) {
 			s.Report(t, checkFn(c, s, skip))
 		})
 
-	run.Check("term", 24000, 250000,
+	run.Check("term", 24000, 200000,
 		"one dice term run as a whole program on three VMs (DiceMinMode, DiceMaxMode, 2..6 seeded random runs; 1 in 7 min/max runs on an unseeded VM): XdY / dY / Xd / d (DefaultDiceSideExpr unset, a number or a dice expression), operands plain, parenthesised, (a+b) or a nested small XdY, modifiers k K kh q Q kl dh dl with or without count, 优势/劣势, min/max clamp, chains AdBdC, Fate f/F, CoC b/p with 0..9 dice, and the configurations of WoD XaYmZkN (Y = 0 or above the sides) and Double Cross XcYmZ (Y above the sides) that cannot add dice; non-trivial = the term has a modifier, a chain, or is not XdY; distinct by source text",
 		func(t *rapid.T, s *rt.Section) {
 			c := drawTermCase(t)
@@ -1432,7 +1432,7 @@ func TestProp(t *testing.T) {
 			s.Report(t, judged(s, checkCase(c, s, skip)))
 		})
 
-	run.Check("expr", 16000, 150000,
+	run.Check("expr", 16000, 120000,
 		"expressions monotone in their dice: sums, products with a non-negative constant, products of two non-negative dice expressions, quotients by a positive constant, redundant parentheses, over 1..4 terms of the term section, optionally through 1..2 computed values (&x = e) or functions (with and without return) whose bodies are evaluated in sub-VMs (bodies use only XdY/dY forms: default-sides dice inside a body crash today, which is not this property); same three-VM oracle (attained bounds when every term is XdY); cases whose magnitude could exceed 1e15 are discarded; non-trivial = an operator or definition is present and some term has a modifier or is CoC/Fate; distinct by source text",
 		func(t *rapid.T, s *rt.Section) {
 			c := drawExprCase(t)
